@@ -199,6 +199,13 @@ impl Parser {
                 let mut allow_self_type = Cow::Borrowed(lhs_ty);
                 let mut assume_self_is_on_top = true;
 
+                // a FIELD that holds a function is not a method: it is called with its own arguments only
+                if let Some(field_function) = type_of_property.is_function() {
+                    if !field_function.is_associated_fn() && !type_of_property.is_class() {
+                        assume_self_is_on_top = false;
+                    }
+                }
+
                 if let TypeLayout::Module(module_type) = lhs_ty {
                     if let Some(ident) = module_type.get_property(&ident_str) {
                         let ident_ty = ident.ty().expect("ident should have type");
